@@ -289,6 +289,11 @@ def main():
     ror("escape: math.exp(traced)", lambda z: anp.reshape(_math.exp(z[0]) + 0.0 * anp.sum(z), (1,)), esc)
     ror("escape: math.sqrt(traced)", lambda z: anp.reshape(_math.sqrt(z[0]) * z[1], (1,)), esc)
     ror("escape: numpy.float64(traced)", lambda z: anp.reshape(onp.float64(z[0]) ** 2 + 0.0 * anp.sum(z), (1,)), esc)
+    for cname in ("float64", "float32", "float16", "double", "single", "longdouble", "float_", "complex128", "cdouble"):
+        conv = getattr(anp, cname, None)
+        if conv is not None:      # autograd.numpy's own scalar-type converters applied to a traced value
+            ror("escape: autograd.numpy.%s(traced) * traced" % cname, lambda z, conv=conv: anp.reshape(anp.real(conv(z[0]) * z[0]) + z[1], (1,)), esc)
+            ror("escape: autograd.numpy.%s(traced array)" % cname, lambda z, conv=conv: anp.real(conv(z) * z), esc)
     ror("escape: '%f' % traced", lambda z: anp.reshape(float("%.17g" % z[0]) ** 2 + 0.0 * anp.sum(z), (1,)), esc)
     ror("escape: traced.item()", lambda z: anp.reshape(z[0].item() ** 2 + 0.0 * anp.sum(z), (1,)), esc)
     ror("escape: traced.tolist()", lambda z: anp.reshape(z.tolist()[0] ** 2 + 0.0 * anp.sum(z), (1,)), esc)
@@ -363,6 +368,13 @@ def main():
         ror("repeat(rect,%r,axis=%r)" % (onp.asarray(reps).tolist(), ax), lambda z, reps=reps, ax=ax: anp.repeat(z, reps, axis=ax), rect)
     for sh, ax in ((1, None), (-2, None), (1, 0), (2, 1), ((1, 2), (0, 1)), ((1, -1), (1, 1))):
         ror("roll(rect,%r,axis=%r)" % (sh, ax), lambda z, sh=sh, ax=ax: anp.roll(z, sh, axis=ax), rect)
+    cube = onp.random.RandomState(11).uniform(0.4, 2.0, (3, 3, 3))
+    box4 = onp.random.RandomState(12).uniform(0.4, 2.0, (2, 2, 2, 2))
+    for args_ in ((), (0,), (1,), (0, 0, 1), (0, 1, 0), (0, 0, 2), (0, 2, 0), (0, 1, 2), (0, 2, 1), (0, -1, -2), (0, -2, -1), (0, -1, 0), (1, 0, 2), (-1, 1, 2)):
+        ror("diagonal(cube,%s)" % ",".join(map(str, args_)), lambda z, args_=args_: anp.diagonal(z, *args_), cube)
+        ror("diagonal(t3,%s)" % ",".join(map(str, args_)), lambda z, args_=args_: anp.diagonal(z, *args_), t3)
+        ror("diagonal(box4,%s)" % ",".join(map(str, args_)), lambda z, args_=args_: anp.diagonal(z, *args_), box4)
+        ror("cube.diagonal(%s)" % ",".join(map(str, args_)), lambda z, args_=args_: z.diagonal(*args_), cube)
     for k in (-1, 0, 1, 2):
         ror("triu(rect,k=%d)" % k, lambda z, k=k: anp.triu(z, k), rect)
         ror("tril(t3,k=%d)" % k, lambda z, k=k: anp.tril(z, k), t3)
